@@ -502,10 +502,21 @@ func (cc *cacheController) flush() {
 	for k, sem := range cc.l1RLockSems {
 		sem.RUnlock()
 		delete(cc.l1RLockSems, k)
+		cc.dropUncommittedLine(k)
 	}
 	for k, sem := range cc.l1LockSems {
 		sem.Unlock()
 		delete(cc.l1LockSems, k)
+		cc.dropUncommittedLine(k)
+	}
+}
+
+// dropUncommittedLine removes from L1 a line the cancelled request had already
+// fetched but whose protocol state was never set: it must not stay resident
+// while the directory says invalid.
+func (cc *cacheController) dropUncommittedLine(addr comp.AlignedAddress) {
+	if cc.msi.states[msiEntry{cc.id, addr}] == invalid {
+		_, _ = cc.l1d.EvictCacheLine(addr)
 	}
 }
 
